@@ -22,6 +22,9 @@ REQUIRED_THEOREMS = [
         "construct_eq_spec", "construct_shows_passed", "construct_shows_default", "construct_passed_equal",
         "reconstruct_refines", "construct_shows_getter",
         "deepcopy_stored_eq", "stored_value_survives_copy", "pyEqC_closed", "selfref_unequal",
+        "metaorder_is_declaration_order", "metaorder_keeps_inherited", "metaorder_body_order",
+        "eq_outcome_values", "eq_outcome_true_iff", "eq_outcome_first_decides", "history_free",
+        "eq_after_any_history", "repr_outcome_lists_exactly", "repr_outcome_total",
     )
 ]
 RULE = (
@@ -48,7 +51,19 @@ RULE = (
     "shows (taken before anything is read); ALL ordered pairs (==, !=), all triples (transitivity, on the real results), "
     "comparisons with history (a copy compared with its original, changed in place at one attribute, compared again), "
     "what cls(**kwargs) shows attribute by attribute for the keyword arguments of every state, "
-    "deepcopy(x)==x, type(x)(**own values)==x, repr(x) / compact repr / repr of a parent holding x. Non-trivial = a pair "
+    "deepcopy(x)==x, type(x)(**own values)==x, repr(x) / compact repr / repr of a parent holding x. "
+    "Decorator options that NAME attributes: in the families the init-overflow attribute annotated in the class body at "
+    "any position (its value reached through unknown keyword arguments / setattr / with_) and attributes named by "
+    "attrs / attrs_typed (+ attrs_skip=[]) that the body annotates as well; plus `meta` cases: a small scope enumerated "
+    "systematically (body a, _p, b, c; attrs x attrs_typed x attrs_skip x init_overflow_attr x key, frozen, eager; a "
+    "subclass adding / re-annotating / naming inherited attributes: 3648 definitions, sampled per seed in the quick "
+    "tier, all of them in the thorough tier) whose metadata order is compared with the model's `metaOrder` and whose "
+    "repr / == / deepcopy / re-construction are judged against the declaration order. Histories with ABORTED "
+    "operations (4 per case): on two fresh copies of a state (or of a state and its single-position mutant) an object "
+    "whose == / repr / deepcopy raises is planted at a random attribute position (one side, both sides, the same object "
+    "on both) or a property getter is made to raise; comparisons in both operand orders, reprs and copies are attempted "
+    "(outcome: result or `raised`, compared with the model step by step); the earlier values are put back and the same "
+    "two objects are compared again both ways, rendered and copied. Non-trivial = a pair "
     "that is equal without being the same object, or differs in a compared attribute; distinct = distinct "
     "(class table, abstract states, result)."
 )
@@ -66,10 +81,22 @@ OPEN_STATEMENTS = [
     "not expressible with selfRef, those `dcs` lines are skipped",
     "bound methods nested inside containers are outside deepcopy_eq (Python compares them by __self__ identity)",
     "the model's input states are abstract states observed on the real instances; of the ways a state is reached only "
-    "the constructor is modelled here (setattr, with_<attr>, del: C01-C09); the init-overflow attribute, __post_init__ "
-    "and overridden parent constructors are outside the constructor model",
+    "the constructor is modelled here (setattr, with_<attr>, del: C01-C09); __post_init__ and overridden parent "
+    "constructors are outside the constructor model; the init-overflow attribute is modelled as an attribute that is not "
+    "a keyword argument and shows {} on a fresh instance (collecting unknown keyword arguments is not modelled: such "
+    "states are observed)",
+    "metadata order (`metaOrder`): attribute NAMES only — types, flags and owners of attributes named by a decorator "
+    "option are compared with the declarations by the harness, not derived by the model; `attrs` given as a set (order "
+    "arbitrary) is outside",
+    "outcomes with raising values (`eqO`): such objects occur directly as attribute values (not inside containers or "
+    "nested instances); which operand's method runs first follows CPython's rule for operands of unrelated classes; "
+    "process-level state keyed by id() that survives the objects (id reuse) is not searched for systematically",
 ]
 ASSUMPTIONS = [
+    "declaration order = inherited attributes in the parent's order, then the attributes annotated in the class body in "
+    "body order (also when a decorator option names them), then the attributes only the decorator names in the order "
+    "attrs, attrs_typed, init_overflow_attr, then the key when nothing else declares it (the decorator's own documentation: "
+    "'starting with those defined as annotations on the class, and then those manually annotated')",
     "values are finite trees: equality theorems exclude cyclic values (DESIGN 10.5); repr includes self-references",
     "two bound-method attribute values are equal iff they wrap the same function (DESIGN 10.6); bound methods occur "
     "only directly as attribute values, not inside containers",
@@ -126,13 +153,17 @@ POOL = {
     "pc": ("int", [0, 1, 2, 7], []),       # spec_property(cache=True), overridable
     "pu": ("int", [0, 1, 2, 7], []),       # spec_property (not cached), overridable
     "pn": ("int", [], []),                 # spec_property(cache=True, overridable=False): never assigned
+    # the init-overflow attribute (`@spec_class(init_overflow_attr="ov")`), ANNOTATED in the class body at whatever
+    # position: the constructor stores the keyword arguments it does not know there ({} when there are none); it is
+    # not a keyword argument itself
+    "ov": ("Dict[str, Any]", [{"d": {}}, {"d": {"zz": 1}}, {"d": {"zz": 1, "yy": "a"}}, {"d": {"yy": 0}}], []),
 }
 PROPS = {"pc": {"cache": True, "ov": True}, "pu": {"cache": False, "ov": True}, "pn": {"cache": True, "ov": False}}
 PROP_SOURCES = ("i", "iv")                 # plain int attributes a getter may return (`return self.i`)
 MUTABLE = {"li", "di", "se", "chs", "chd", "kl", "ks"}
 DNC_OK = MUTABLE | {"cb", "cb2"}
 BASE_ATTRS = ["i", "b", "s", "f", "o", "u", "lt", "li", "di", "se", "ch", "chs", "chd", "kl", "ks", "cb", "cb2", "p", "iv",
-              "pc", "pu", "pn"]
+              "pc", "pu", "pn", "ov"]
 
 
 def setup():
@@ -199,12 +230,51 @@ def render_getter(a):
     kind, what = p["getter"]
     expr = repr(what) if kind == "const" else f"self.{what}"
     dec = "@spec_property(%s)" % ", ".join(opts) if opts else "@spec_property"
-    return f"{dec}\ndef {a['name']}(self): return {expr}"
+    # (`x.__dict__["_boom_<attr>"] = True` makes the getter raise: histories with aborted operations)
+    return (f"{dec}\ndef {a['name']}(self):\n    if self.__dict__.get('_boom_{a['name']}'): raise ValueError('boom')\n"
+            f"    return {expr}")
 
 
 def passable(a):
     """The constructor accepts (and the instance can store) a value for the attribute."""
-    return bool(a["init"]) and not (a.get("prop") and not a["prop"]["ov"])
+    return bool(a["init"]) and not (a.get("prop") and not a["prop"]["ov"]) and not a.get("overflow")
+
+
+BOOM_SRC = '''
+class Boom:
+    """An object outside the value grammar whose own methods raise (kind: e = ==/!=, r = repr, c = deepcopy)."""
+    def __init__(self, kind): self.kind = kind
+    def __eq__(self, other):
+        if "e" in self.kind: raise ValueError("boom")
+        return self is other
+    def __ne__(self, other):
+        if "e" in self.kind: raise ValueError("boom")
+        return self is not other
+    __hash__ = object.__hash__
+    def __repr__(self):
+        if "r" in self.kind: raise ValueError("boom")
+        return "<boom>"
+    def __deepcopy__(self, memo):
+        if "c" in self.kind: raise ValueError("boom")
+        return Boom(self.kind)
+'''
+
+
+def deco_args(c):
+    """Decorator options of a class of the family that NAME attributes: the overflow attribute (annotated in the body at
+    whatever position), and `attrs` / `attrs_typed` (+ `attrs_skip=[]`: "in addition to the annotated ones") naming
+    attributes that the body annotates as well."""
+    args = []
+    d = c.get("deco") or {}
+    if d.get("attrs"):
+        args.append("attrs=[" + ", ".join(repr(n) for n in d["attrs"]) + "]")
+    if d.get("typed"):
+        args.append("attrs_typed={" + ", ".join(f"{n!r}: {POOL[n][0]}" for n in d["typed"]) + "}")
+    if d.get("attrs") or d.get("typed"):
+        args.append("attrs_skip=[]")
+    if any(a.get("overflow") for a in c["attrs"]):
+        args.append("init_overflow_attr='ov'")
+    return args
 
 
 def render(case):
@@ -214,6 +284,7 @@ def render(case):
         "class Helper:\n    def meth(self): pass\n    def other(self): pass\n",
         "HELPERS = [Helper(), Helper()]\ndef fn0(): pass\ndef fn1(): pass\nFUNCS = [fn0, fn1]\n"
         "CLASSES = [int, str]\nMODULES = [math, os]\n",
+        BOOM_SRC,
     ]
     for c in fam["classes"]:
         lines = []
@@ -225,6 +296,7 @@ def render(case):
                 args.append("do_not_copy=[" + ", ".join(repr(x) for x in c["dnc"]) + "]")
             if c.get("eager"):
                 args.append("bootstrap=True")
+            args += deco_args(c)
             lines.append("@spec_class(%s)" % ", ".join(args) if args else "@spec_class")
         lines.append(f"class {c['name']}({c['base']}):" if c["base"] else f"class {c['name']}:")
         body = [render_attr(a) for a in c["attrs"]]
@@ -299,6 +371,8 @@ def attrs_of(case, cname):
 
 def fresh_view(a):
     """What a fresh instance shows for the attribute when nothing is passed (value descriptor or MISSING)."""
+    if a.get("overflow"):
+        return {"d": {}}       # the constructor always stores the (possibly empty) dict of unknown keyword arguments
     if a["kind"] == "none" or a.get("default", "NODEFAULT") == "NODEFAULT":
         return "MISSING"
     if a.get("factory") and not a["init"]:
@@ -448,6 +522,32 @@ class Tokens:
         return out
 
 
+def _slots(self, x):
+    """Per attribute what `getattr(x, attr, MISSING)` gives, for the histories: a value, `X<kind>:<identity>` for an
+    object whose methods raise, `G` when the read itself raises."""
+    from spec_classes import MISSING
+
+    cname = type(x).__name__
+    attrs = attrs_of(self.case, cname)
+    if not hasattr(self, "booms"):
+        self.booms = {}
+    out = [str(self.ids[cname]), str(len(attrs))]
+    for a in attrs:
+        try:
+            v = getattr(x, a["name"], MISSING)
+        except ValueError:
+            out.append("G")
+            continue
+        if type(v).__name__ == "Boom":
+            out.append(f"X{v.kind}:{self.booms.setdefault(id(v), len(self.booms))}")
+        else:
+            out += self.val(v, x)
+    return out
+
+
+Tokens.slots = _slots
+
+
 def desc_tokens(case, v):
     """Tokens of a default-value descriptor (for the class table)."""
     if v == "MISSING":
@@ -497,7 +597,9 @@ def make_state(case, ns, st):
     kwargs, later = {}, []
     for name, v in st["vals"].items():
         how = via.get(name, "ctor") if name != key else "ctor"
-        if name in through_ctor and how == "ctor":
+        if name == "ov" and how == "ctor":
+            kwargs.update(make_value(ns, v))     # the overflow attribute collects the UNKNOWN keyword arguments
+        elif name in through_ctor and how == "ctor":
             kwargs[name] = make_value(ns, v)
         else:
             later.append((name, v, how if name in through_ctor else "set"))
@@ -595,6 +697,11 @@ def lines(case):
         return _cache[key][1]
     if len(_cache) > 400:
         _cache.clear()
+    if "meta" in case:
+        import c10_meta
+
+        _cache[key] = (case, c10_meta.lines(case))
+        return _cache[key][1]
     ns = build(case)
     tk = Tokens(case, ns)
     ids = class_ids(case)
@@ -625,6 +732,17 @@ def lines(case):
             (a["name"], a["compare"], a["repr"], a["init"], a["dnc"], a["owner"]) for a in attrs]
         same = same and (("__spec_class__" in ns[cname].__dict__) == (spec == "1"))
         rl.append("ok" if same else "metadata-differs " + ",".join(real))
+        if cname != "Child" and cdefs[cname]["spec"]:
+            # the ORDER of the metadata as `spec_class.bootstrap` assembles it (`metaOrder`), from the declarations:
+            # inherited names, the annotations of the class body, what the decorator options name
+            c = cdefs[cname]
+            d = c.get("deco") or {}
+            ovf = "ov" if any(a.get("overflow") for a in c["attrs"]) else "-"
+            toks = ["meta", c.get("key") or "-", ovf, "1" if (d.get("attrs") or d.get("typed")) else "0", "|"]
+            toks += [a["name"] for a in (attrs_of(case, c["base"]) if c["base"] else [])] + ["|"]
+            toks += [a["name"] for a in c["attrs"]] + ["|"] + list(d.get("attrs") or []) + ["|"] + list(d.get("typed") or []) + ["|"]
+            ml.append(" ".join(toks))
+            rl.append(" ".join(real) if real else "-")
     insts = build_states(case, ns)
     import copy
 
@@ -718,6 +836,32 @@ def lines(case):
             ml.append(f"eq {l} {r}")
             rl.append(guarded(lambda: "1" if (c if l == nxt else insts[b]) == (insts[b] if l == nxt else c) else "0"))
         nxt += 1
+    # histories with ABORTED operations: a value whose ==, repr or deepcopy raises (or a getter that raises) is planted,
+    # comparisons / reprs / copies are attempted (some raise), the value is restored, and the same objects are compared
+    # again, both ways. One model step per line (`runH`); the model is told the attribute values observed on the objects
+    # after every change and nothing else: no operation leaves anything behind
+    for sc in poison_scenarios(case):
+        tkh = Tokens(case, ns)
+
+        def on_event(step, out, objs, changed):
+            for w in changed:
+                ml.append(" ".join(["hst", str(w)] + tkh.slots(objs[w])))
+                rl.append("ok")
+            if step[0] == "cmp":
+                ml.append(f"heq {step[1]} {step[2]}")
+                rl.append(out if isinstance(out, str) else ("1" if out else "0"))
+            elif step[0] == "repr":
+                ml.append(f"hrepr {step[1]}")
+                rl.append(out)
+            elif step[0] == "copy":
+                ml.append(f"hcopy {step[1]}")
+                rl.append(out)
+
+        try:
+            run_poison(case, ns, insts, sc, on_event)
+        except Exception as e:  # noqa: BLE001  (setting the scene failed; the oracle reports it)
+            ml.append("hcopy 99")
+            rl.append(f"scenario raised {type(e).__name__}")
     _cache[key] = (case, (ml, rl))
     return ml, rl
 
@@ -755,6 +899,231 @@ def history_copy(ns, insts, case, b, j, aname):
     c == insts[b], insts[b] == c, c != insts[b]
     setattr(c, aname, make_value(ns, case["states"][j]["vals"][aname], c))
     return c
+
+
+def poison_scenarios(case):
+    """Histories with aborted operations; a deterministic function of the case (so that a replay re-runs them).
+    A scenario works on two fresh copies: object 0 = a copy of state `b`, object 1 = a copy of `j` (= `b`, or a
+    single-position mutant of it). Steps: ["plant", who, attr, kind, boom] (`x.__dict__[attr] = Boom(kind)`; the same
+    `boom` number = the same object), ["flag", who, attr] (the getter of the property-backed attribute raises from now
+    on), ["cmp", l, r], ["repr", who], ["copy", who], ["heal"] (every planted value replaced by what was there before,
+    getters restored)."""
+    import random
+
+    if "meta" in case or "family" not in case:
+        return []
+    if "histories" in case:
+        return case["histories"]          # (corpus cases spell their histories out)
+    sts = case["states"]
+    eqs = [i for i in eq_states(case) if not outside_scope(sts[i])]
+    if not eqs:
+        return []
+    rnd = random.Random(len(sts) * 7919 + sum(len(c["attrs"]) * (k + 1) for k, c in enumerate(case["family"]["classes"])))
+    out = []
+    for n in range(4):
+        b = rnd.choice(eqs)
+        attrs = attrs_of(case, sts[b]["cls"])
+        mutants = [j for j in eqs if (sts[j].get("mutant_of") or [None])[0] == b and sts[j]["cls"] == sts[b]["cls"]]
+        j = rnd.choice(mutants) if mutants and rnd.random() < 0.65 else b
+        plain = [a["name"] for a in attrs if not a.get("prop")]
+        props = [a["name"] for a in attrs if a.get("prop")]
+        steps, nb = [], 0
+        for _ in range(rnd.choice([1, 1, 2]) if plain else 0):
+            name = rnd.choice(plain)
+            kind = rnd.choice(["e", "e", "e", "e", "er", "ec", "erc", "r", "c", "rc", ""])
+            who = rnd.choice(["0", "0", "1", "both", "shared"])
+            if who in ("0", "1"):
+                steps.append(["plant", int(who), name, kind, nb])
+                nb += 1
+            elif who == "both":
+                steps += [["plant", 0, name, kind, nb], ["plant", 1, name, rnd.choice([kind, "e", ""]), nb + 1]]
+                nb += 2
+            else:
+                steps += [["plant", 0, name, kind, nb], ["plant", 1, name, kind, nb]]
+                nb += 1
+        if props and (not plain or rnd.random() < 0.5):
+            steps.append(["flag", rnd.choice([0, 1]), rnd.choice(props)])
+        ops = [["cmp", 0, 1], ["cmp", 1, 0], ["cmp", 0, 0], ["repr", 0], ["repr", 1], ["copy", 0], ["copy", 1]]
+        # the comparison of the pair comes first in most histories (it is what a later comparison could remember)
+        first = [["cmp", 0, 1], ["cmp", 1, 0]] if rnd.random() < 0.5 else [["cmp", 0, 1]] if rnd.random() < 0.6 else []
+        rnd.shuffle(first)
+        steps += first + [rnd.choice(ops) for _ in range(rnd.randint(1, 4))]
+        steps.append(["heal"])
+        steps += [["cmp", 0, 1], ["cmp", 1, 0], ["repr", 0], ["copy", 0], ["cmp", 0, 1], ["cmp", 0, 0]]
+        out.append({"b": b, "j": j, "steps": steps})
+    return out
+
+
+def run_poison(case, ns, insts, sc, on_event):
+    """Runs one history on fresh copies of the two pool states. `on_event(step, outcome, objs, changed)` is called for
+    every step AFTER it ran (`changed` = the objects whose attribute values it changed; before the first step: both)."""
+    import copy
+
+    objs = [copy.deepcopy(insts[sc["b"]]), copy.deepcopy(insts[sc["j"]])]
+    before = [dict(o.__dict__) for o in objs]
+    booms, planted = {}, set()
+
+    def attempt(f):
+        try:
+            return f()
+        except ValueError:
+            return "raised"
+        except RecursionError:
+            return "raised RecursionError"
+        except Exception as e:  # noqa: BLE001
+            return f"raised {type(e).__name__}"
+
+    on_event(["start"], None, objs, [0, 1])
+    for step in sc["steps"]:
+        op, out, changed = step[0], None, []
+        if op == "plant":
+            _, w, name, kind, bid = step
+            objs[w].__dict__[name] = booms.setdefault(bid, ns["Boom"](kind))
+            planted.add((w, name))
+            changed = [w]
+        elif op == "flag":
+            objs[step[1]].__dict__["_boom_" + step[2]] = True
+            planted.add((step[1], "_boom_" + step[2]))
+            changed = [step[1]]
+        elif op == "heal":
+            for w, name in sorted(planted):
+                if name in before[w]:
+                    objs[w].__dict__[name] = before[w][name]
+                else:
+                    objs[w].__dict__.pop(name, None)
+            planted.clear()
+            changed = [0, 1]
+        elif op == "cmp":
+            out = attempt(lambda: bool(objs[step[1]] == objs[step[2]]))
+        elif op == "repr":
+            out = repr_skeleton(case, objs[step[1]])
+            if out.startswith("raised ValueError"):
+                out = "raised"
+        elif op == "copy":
+            out = attempt(lambda: "ok" if copy.deepcopy(objs[step[1]]) is not None else "none")
+        on_event(step, out, objs, changed)
+    return objs
+
+
+def slot_view(case, x):
+    """Per attribute: ("G",) the read raises / ("X", boom) / ("V", value)."""
+    from spec_classes import MISSING
+
+    out = {}
+    for a in attrs_of(case, type(x).__name__):
+        try:
+            v = getattr(x, a["name"], MISSING)
+        except ValueError:
+            out[a["name"]] = ("G",)
+            continue
+        out[a["name"]] = ("X", v) if type(v).__name__ == "Boom" else ("V", v)
+    return out
+
+
+def judge_outcome(case, x, y, out):
+    """The property text on ONE comparison, also with values that raise: True only when every compare-enabled attribute
+    is equal; False only when one differs; an exception only when some compared attribute has a value / getter that raises."""
+    import inspect
+
+    vx, vy = slot_view(case, x), slot_view(case, y)
+    cause, differs = [], []
+    for a in attrs_of(case, type(x).__name__):
+        if not a["compare"]:
+            continue
+        l, r = vx[a["name"]], vy[a["name"]]
+        if l[0] == "G" or r[0] == "G":
+            cause.append(a["name"])
+        elif l[0] == "X" or r[0] == "X":
+            if l[0] == r[0] and l[1] is r[1]:
+                continue
+            differs.append(a["name"])           # distinct objects that compare by identity (or not at all)
+            if (l[0] == "X" and "e" in l[1].kind) or (r[0] == "X" and "e" in r[1].kind):
+                cause.append(a["name"])
+        else:
+            v, w = l[1], r[1]
+            same = (v.__func__ is w.__func__) if inspect.ismethod(v) and inspect.ismethod(w) else ref_val_eq(case, v, w)
+            if not same:
+                differs.append(a["name"])
+    if out is True and (differs or cause):
+        return f"is True although the compare-enabled attribute(s) {sorted(set(differs + cause))} differ / cannot be compared"
+    if out is False and not differs and type(x) is type(y):
+        return "is False although every compare-enabled attribute is equal"
+    if isinstance(out, str) and not cause:
+        return f"{out} although no compared attribute has a value or getter that raises"
+    return None
+
+
+def describe_scenario(case, sc):
+    names = {0: f"c0 = deepcopy(state {sc['b']})", 1: f"c1 = deepcopy(state {sc['j']})"}
+    words = []
+    for st in sc["steps"]:
+        if st[0] == "plant":
+            words.append(f"c{st[1]}.{st[2]} = Boom#{st[4]}({st[3]!r})")
+        elif st[0] == "flag":
+            words.append(f"getter of c{st[1]}.{st[2]} raises")
+        elif st[0] == "cmp":
+            words.append(f"c{st[1]} == c{st[2]}")
+        elif st[0] in ("repr", "copy"):
+            words.append(f"{'repr' if st[0] == 'repr' else 'deepcopy'}(c{st[1]})")
+        else:
+            words.append("[planted values replaced by the earlier ones]")
+    return f"{names[0]}, {names[1]}; " + "; ".join(words)
+
+
+def oracle_histories(case, ns, insts):
+    import copy
+
+    viol = []
+    for sc in poison_scenarios(case):
+        healed = [False]
+        log = []
+
+        def on_event(step, out, objs, changed):
+            if step[0] == "heal":
+                healed[0] = True
+            if step[0] == "cmp":
+                log.append(f"c{step[1]} == c{step[2]} -> {out}")
+                bad = judge_outcome(case, objs[step[1]], objs[step[2]], out)
+                if bad:
+                    viol.append(f"history [{describe_scenario(case, sc)}] {show_state(case, sc['b'])} "
+                                f"{show_state(case, sc['j']) if sc['j'] != sc['b'] else ''}: after {log[:-1]}, "
+                                f"c{step[1]} == c{step[2]} {bad}")
+                if healed[0]:
+                    try:
+                        if (objs[step[1]] != objs[step[2]]) == out:
+                            viol.append(f"history [{describe_scenario(case, sc)}]: != is not the negation of == afterwards")
+                    except Exception as e:  # noqa: BLE001
+                        viol.append(f"history [{describe_scenario(case, sc)}]: != raised {type(e).__name__} afterwards")
+            elif step[0] == "repr":
+                log.append(f"repr(c{step[1]}) -> {out.split(' ')[0]}")
+                view = slot_view(case, objs[step[1]])
+                shown = [a["name"] for a in attrs_of(case, type(objs[step[1]]).__name__) if a["repr"]]
+                cause = any(view[n][0] == "G" or (view[n][0] == "X" and "r" in view[n][1].kind) for n in shown)
+                if out.startswith(("raised", "unparsable")):
+                    if not cause:
+                        viol.append(f"history [{describe_scenario(case, sc)}]: after {log[:-1]}, repr(c{step[1]}) {out}")
+                elif [p.split("=")[0] for p in out.split(" ")[1:]] != shown:
+                    viol.append(f"history [{describe_scenario(case, sc)}]: after {log[:-1]}, repr(c{step[1]}) lists "
+                                f"{[p.split('=')[0] for p in out.split(' ')[1:]]}, repr-enabled attributes are {shown}")
+            elif step[0] == "copy":
+                log.append(f"deepcopy(c{step[1]}) -> {out}")
+                view = slot_view(case, objs[step[1]])
+                if out != "ok" and not any(v[0] == "X" and "c" in v[1].kind for v in view.values()):
+                    viol.append(f"history [{describe_scenario(case, sc)}]: after {log[:-1]}, deepcopy(c{step[1]}) {out}")
+                if out == "ok" and healed[0]:
+                    x = objs[step[1]]
+                    c = copy.deepcopy(x)
+                    if c is x or type(c) is not type(x):
+                        viol.append(f"history [{describe_scenario(case, sc)}]: after {log[:-1]}, deepcopy(c{step[1]}) is "
+                                    f"not a new instance")
+                    if not (c == x) or not ref_eq(case, c, x):
+                        viol.append(f"history [{describe_scenario(case, sc)}]: after {log[:-1]}, deepcopy(c{step[1]}) != c{step[1]}")
+
+        try:
+            run_poison(case, ns, insts, sc, on_event)
+        except Exception as e:  # noqa: BLE001
+            viol.append(f"history [{describe_scenario(case, sc)}] could not be run: {type(e).__name__}: {e}")
+    return viol
 
 
 def model_lines(case):
@@ -996,6 +1365,10 @@ def copy_diff(case, x, c):
 def oracle(case):
     import copy
 
+    if "meta" in case:
+        import c10_meta
+
+        return c10_meta.oracle(case)
     viol = []
     try:
         ns = build(case)
@@ -1104,7 +1477,8 @@ def oracle(case):
             continue
         names = [p.split("=")[0] for p in sk.split(" ")[1:]]
         if names != want or sk.split(" ")[0] != type(x).__name__:
-            viol.append(f"repr(state {i}) lists {names}, repr-enabled attributes in declaration order are {want}")
+            viol.append(f"repr(state {i}) lists {names}, repr-enabled attributes in declaration order are {want} "
+                        f"[{show_class(case, type(x).__name__)}]")
         for form in (lambda: str(x), lambda: x.__repr__(compact=True), lambda: x.__repr__(indent=True), lambda: x.__repr__(indent=False),
                      lambda: repr([x]), lambda: repr({"k": x})):
             try:
@@ -1124,7 +1498,15 @@ def oracle(case):
                     viol.append(f"repr of a parent holding state {i} raised {type(e).__name__}")
     except Exception as e:  # noqa: BLE001
         viol.append(f"holder construction raised {type(e).__name__}: {e}")
+    viol = viol[:10] + oracle_histories(case, ns, insts)
     return viol[:12]
+
+
+def show_class(case, cname):
+    """The declaration of a class of the family in one line (decorator and body)."""
+    src = render(case).split("\n\n")
+    mine = [b for b in src if re.search(rf"^class {cname}\b", b, re.M)]
+    return (mine[0] if mine else cname).strip().replace("\n", "; ")[:400]
 
 
 # ---------------------------------------------------------------------------
@@ -1134,6 +1516,10 @@ def oracle(case):
 
 def gen_attr(rng, name, *, allow_missing=True):
     ann, vals, dflts = POOL[name]
+    if name == "ov":
+        # (named twice — by the body and by `init_overflow_attr`; declared bare or through `Attr(...)` with options)
+        return {"name": "ov", "compare": rng.random() > 0.25, "repr": rng.random() > 0.25, "init": True, "kind": "none",
+                "overflow": True}
     if name in PROPS:
         # (flags cannot be given for an attribute whose class-level value is the property; the getter is chosen by
         # `finish_props` once the attributes visible in the class are known)
@@ -1209,7 +1595,7 @@ def gen_family(rng):
     if rng.random() < 0.3 and S["attrs"]:
         # re-declare an inherited attribute with other flags (keeps its position)
         b = rng.choice(S["attrs"])
-        if b["name"] != "iv" and b["name"] != S.get("key") and not b.get("prop"):
+        if b["name"] != "iv" and b["name"] != S.get("key") and not b.get("prop") and not b.get("overflow"):
             T["attrs"].append(gen_attr(rng, b["name"], allow_missing=b["kind"] == "none"))
     classes.append(T)
     classes.append({"name": "P", "base": "S", "spec": False, "attrs": []})
@@ -1230,7 +1616,7 @@ def gen_family(rng):
         if rng.random() < 0.25 and (S["attrs"] or T["attrs"]):
             # third level re-declares an attribute of the first or second level
             b = rng.choice(S["attrs"] + T["attrs"])
-            if (b["name"] != "iv" and b["name"] != S.get("key") and not b.get("prop")
+            if (b["name"] != "iv" and b["name"] != S.get("key") and not b.get("prop") and not b.get("overflow")
                     and all(a["name"] != b["name"] for a in U["attrs"])):
                 U["attrs"].append(gen_attr(rng, b["name"], allow_missing=b["kind"] == "none"))
         classes.append(U)
@@ -1261,7 +1647,27 @@ def gen_family(rng):
                 if others:
                     c["overrides"] = [{"name": b["name"], "default": rng.choice(others)}]
     finish_props(rng, classes)
+    # decorator options that NAME attributes the class body annotates as well (`attrs`, `attrs_typed`, each with
+    # `attrs_skip=[]` = "in addition to the annotated attributes"): the attribute keeps its place in the body
+    for c in classes:
+        if c["spec"] and rng.random() < 0.3:
+            elig = [a["name"] for a in c["attrs"] if nameable(a)]
+            picked = rng.sample(elig, min(len(elig), rng.randint(1, 2)))
+            deco = {"attrs": [], "typed": []}
+            for n in picked:
+                deco[rng.choice(["attrs", "typed"])].append(n)
+            if picked:
+                c["deco"] = deco
     return {"classes": classes}
+
+
+def nameable(a):
+    """The attribute can ALSO be named by `attrs` / `attrs_typed` of its class: any attribute the body annotates — bare,
+    with a literal default, or declared through `Attr(...)` / `dataclasses.field(...)` with options (`compare=False`,
+    `repr=False`, `init=False`, `default_factory`, `invalidated_by`; these must survive: fixed finding
+    KF-C10-named-twice-options-lost, /repo 2c756f0) — except one whose class-level value is a `spec_property` and the
+    overflow attribute (named by its own option)."""
+    return not a.get("prop") and not a.get("overflow")
 
 
 def _bare(a):
@@ -1503,9 +1909,17 @@ def valid_case(case):
 
 
 def gen_cases(tier, rng):
+    import c10_meta
+
     n = {"quick": 60, "thorough": 400}.get(tier)
     count = 0
+    # the order of the attributes in the metadata through every decorator option (small scope: sampled per seed in
+    # the quick tier, exhaustive in the thorough one; the search generator mixes samples in)
+    if tier in ("quick", "thorough"):
+        yield from c10_meta.gen(tier, rng)
     while n is None or count < n:
+        if n is None and count % 25 == 24:
+            yield from c10_meta.gen("search", rng)
         c = gen_case(rng, tier)
         if not valid_case(c):
             continue
@@ -1553,6 +1967,11 @@ def _remap(st, f):
 
 def shrink(case, at=None):
     """Drop one state nobody refers to (indices of the remaining references are renumbered)."""
+    if "meta" in case:
+        for k in range(len(case["meta"])):
+            if len(case["meta"]) > 1:
+                yield {**case, "meta": [case["meta"][k]]}
+        return
     sts = case["states"]
     referred = {r for st in sts for r in _refs(st)}
     for i in reversed(range(len(sts))):
@@ -1561,6 +1980,10 @@ def shrink(case, at=None):
 
 
 def nontrivial(case, real):
+    if "meta" in case:
+        import c10_meta
+
+        return c10_meta.nontrivial(case)
     keys = []
     table = tuple(l for l in lines(case)[0] if l.startswith("cls "))
     ml, rl = lines(case)
@@ -1574,6 +1997,10 @@ def nontrivial(case, real):
 
 
 def tags(case, real):
+    if "meta" in case:
+        import c10_meta
+
+        return c10_meta.tags(case)
     ml, rl = lines(case)
     t = [f"classes:{len(case['family']['classes'])}", f"states:{len(case['states'])}"]
     for c in case["family"]["classes"]:
@@ -1591,10 +2018,22 @@ def tags(case, real):
             t.append("feature:key")
         if c.get("dnc"):
             t.append("feature:do_not_copy")
+        if c.get("deco"):
+            t.append("feature:annotated-and-named-by-decorator")
+        if any(a.get("overflow") for a in c["attrs"]):
+            t.append("feature:init_overflow_attr")
     for l, r in zip(ml, rl):
         op = l.split(" ")[0]
         if op in ("eq", "dc", "rc"):
             t.append(f"{op}:{r}")
+        if op in ("heq", "hrepr", "hcopy"):
+            t.append(f"history:{op}:{r.split(' ')[0] if r.startswith('raised') or op != 'hrepr' else 'listed'}")
+    for sc in poison_scenarios(case):
+        for stp in sc["steps"]:
+            if stp[0] == "plant":
+                t.append(f"history:plant:{stp[3] or 'quiet'}")
+            elif stp[0] == "flag":
+                t.append("history:getter-raises")
     for st in case["states"]:
         if st.get("mutant_of") is not None:
             t.append("state:single-position-mutant")
@@ -1789,8 +2228,11 @@ def extra(tier, rng):
     return {"evaluations": evaluations, "nontrivial": keys, "violations": violations, "disagreements": [], "info": {"identity_probes": evaluations}}
 
 
+KNOWN_MATCHERS = {}      # (no open finding; KF-C10-named-twice-options-lost is fixed: /repo 2c756f0, corpus witness)
+
+
 MANIFEST_ENTRY = {
-    "level_text": "Lean 4 proof about an executable model of EqMethod.eq under CPython's == dispatch, DeepCopyMethod.deepcopy, the constructor InitMethod.init (parent spec-class constructors base-most first with the forwarded keyword arguments, then the own attributes; any inheritance depth, plain subclasses, per-class defaults), re-construction through it and ReprMethod.repr over finite value trees (scalars, lists, dicts, sets, nested instances, bound methods, functions, classes, modules, MISSING): == is reflexive, symmetric and transitive, holds exactly when the classes are the same and every compare-enabled attribute is equal (missing only equals missing; a pair of bound methods by function), a difference at ANY attribute position is noticed, compare=False attributes are ignored, deepcopy(x)==x, deepcopy of the instance's own __dict__ state shows attribute by attribute what the original shows also for attributes backed by a spec_property (an assigned override or memoised result is an entry like any other and survives the copy; otherwise the getter's result on the copy), an instance that holds itself under a compared attribute (directly or in a list/set/dict) is unequal to every finite value in either operand order and the comparison used for such pairs coincides with == on finite trees, the constructor shows every passed value (whatever it is - falsy ones included - and whichever class of the chain owns the attribute) and the default or the getter's result otherwise, re-construction from own values gives an equal instance, repr is total and lists exactly the repr-enabled attributes in declaration order. The model is tied to /repo on every run: generated class families are exec'd, a pool of instances (incl. a single-position mutant for every attribute position, subclasses, states reached through the constructor / setattr / with_<attr>, all-falsy states of every class, extra __dict__ state, overridden / memoised / out-of-date property-backed attributes, instances holding other instances, self-references) is built, and what getattr shows for the observed __dict__ state, what a deep copy shows, ==, deepcopy, what the constructor shows for the keyword arguments of every state, re-construction and the parsed repr of ALL pairs/states are compared with the model; the oracle checks the equivalence laws and an attribute-wise reference comparison on the real results.",
+    "level_text": "Lean 4 proof about an executable model of EqMethod.eq under CPython's == dispatch, DeepCopyMethod.deepcopy, the constructor InitMethod.init (parent spec-class constructors base-most first with the forwarded keyword arguments, then the own attributes; any inheritance depth, plain subclasses, per-class defaults), re-construction through it and ReprMethod.repr over finite value trees (scalars, lists, dicts, sets, nested instances, bound methods, functions, classes, modules, MISSING): == is reflexive, symmetric and transitive, holds exactly when the classes are the same and every compare-enabled attribute is equal (missing only equals missing; a pair of bound methods by function), a difference at ANY attribute position is noticed, compare=False attributes are ignored, deepcopy(x)==x, deepcopy of the instance's own __dict__ state shows attribute by attribute what the original shows also for attributes backed by a spec_property (an assigned override or memoised result is an entry like any other and survives the copy; otherwise the getter's result on the copy), an instance that holds itself under a compared attribute (directly or in a list/set/dict) is unequal to every finite value in either operand order and the comparison used for such pairs coincides with == on finite trees, the constructor shows every passed value (whatever it is - falsy ones included - and whichever class of the chain owns the attribute) and the default or the getter's result otherwise, re-construction from own values gives an equal instance, repr is total and lists exactly the repr-enabled attributes in declaration order; the key order of the metadata assembled by spec_class.bootstrap from the inherited attributes, the class body and the decorator options attrs / attrs_typed / attrs_skip / init_overflow_attr / key (ordered-dict updates) equals the declaration order, keeps the parent's order as a prefix and keeps the body order of annotated attributes whatever the decorator names; with attribute values whose own ==, repr or deepcopy raise and getters that raise, x == y answers True exactly when every compare-enabled attribute is equal without raising, the first compared attribute that differs or raises decides the outcome, and after ANY history of assignments and completed or aborted comparisons / reprs / copies an operation answers what it answers on the current attribute values alone. The model is tied to /repo on every run: generated class families are exec'd, a pool of instances (incl. a single-position mutant for every attribute position, subclasses, states reached through the constructor / setattr / with_<attr>, all-falsy states of every class, extra __dict__ state, overridden / memoised / out-of-date property-backed attributes, instances holding other instances, self-references) is built, and what getattr shows for the observed __dict__ state, what a deep copy shows, ==, deepcopy, what the constructor shows for the keyword arguments of every state, re-construction and the parsed repr of ALL pairs/states are compared with the model; the oracle checks the equivalence laws and an attribute-wise reference comparison on the real results; class definitions through every attribute-naming decorator option (3648 definitions, sampled in the quick tier, exhaustive in the thorough tier) have their real metadata order compared with the model and their repr judged against the declaration order; histories with planted raising values run step by step against the model's history machine.",
     "level_note": "Trusted: Lean kernel; axioms propext/Classical.choice/Quot.sound only; the hand-written model and harness; CPython's == dispatch rule and its list/dict repr recursion guard. Equality theorems are about acyclic values (cyclic ones recurse in Python as for plain lists); repr covers self-references. The model's input states are the abstract states observed on the real instances.",
     "technique": "Lean 4 structural-induction proofs over a mutual value inductive; differential correspondence on all pairs of a generated state pool; independent reference comparison + equivalence-law oracle",
 }
